@@ -75,7 +75,9 @@ def build(tier, workdir, seed, prop=PROP):
         more = set(re.findall(r'#define XV_CONTRACT_(\w+)', C01_contracts.generate_more(n, layout)))
         todo = [c for c in u.contracts if c in u.lw.loops and not (cfg not in ('p7', 'z7') and not heavy and (c in more or any(('fs__' + h) in c for h in HEAVY)))
                 and not (cfg == 'z7' and 'compare' in c)]
-        jobs += u.contract_jobs(prop, aliases=todo, timeout=3600 if heavy else 900, inline_all=True, pre_unwind=(n + 3 if layout == 'strlen' else None))
+        # C-string overloads: the strlen loop of the model carries no contract and is unwound to the argument bound (4N characters + terminator)
+        ex = {a: {'pre_unwind': 4 * n + 3} for a in C01_contracts.CSTR_ALIASES} if layout != 'strlen' else None
+        jobs += u.contract_jobs(prop, aliases=todo, timeout=3600 if heavy else 900, inline_all=True, pre_unwind=(n + 3 if layout == 'strlen' else None), extra=ex)
         if cfg == 'p7':
             # search family: capacity-bounded proofs (all loops, including the char_traits model loops, unwound: bound = capacity + 3)
             sel_s = lambda fn, q, lw: (q.startswith('dflt_') and not lw.tu.in_repo(fn)) or (q.startswith('xtl::xbasic_fixed_string::') and re.match(r'r?find', fn.get('name', '')) and m_is_counted(fn, lw))
